@@ -106,10 +106,10 @@ def task_route_group(modname, listname, gi, ngroups, spnames):
     return acc.result()
 
 
-def plan_ctx(modname, tier, backends=("c", "py"), nosurr=False, ngroups=12):
+def plan_ctx(modname, tier, backends=("c", "py"), nosurr=False, ngroups=12, light=False):
     """One-factor contexts with F1+K2+X2 (thorough: +K3), all-pairs contexts with F1 (thorough: +K2)."""
     p = "n" if nosurr else ""
-    one = (p + "F1", p + "K2", p + "X2") + ((p + "K3",) if tier != "quick" else ())
+    one = (p + "F1", p + "K2") + (() if (light and tier == "quick") else (p + "X2",)) + ((p + "K3",) if tier != "quick" else ())
     two = (p + "F1",) + ((p + "K2",) if tier != "quick" else ())
     tasks = []
     for b in backends:
